@@ -37,6 +37,16 @@ func runC41(c *mon.Ctx) {
 	c.Assume("refmodel MTProto 2.0 cipher and the generated mt TL encoders are trusted; the harness model of 'told'/'announced' salts follows the order in which " +
 		"the harness injected server messages, each injection synchronised by an observable effect (sentinel in the same container, OnSession, retransmitted frame)")
 	c.Assume("RetryInterval is set so that the rpc retry timer never fires: every retransmission observed is caused by the bad-salt path")
+	// debugging aid only (never set by ./check): run a single arm
+	if arm := os.Getenv("SALTPING_ARM"); arm != "" {
+		f := map[string]func(*mon.Ctx, int) bool{"scenario": c41Scenario, "traffic": c41Traffic, "named": c41Named, "multi": c41Multi, "stress": c41Stress}[arm]
+		for i := 0; f != nil && i < c.N(400, 20000); i++ {
+			if !f(c, i) {
+				break
+			}
+		}
+		return
+	}
 	c41UnitSequential(c)
 	c41UnitConcurrent(c)
 	n := c.N(400, 20000)
